@@ -1,10 +1,15 @@
 #!/bin/bash
 # try_patch.sh <patch.diff> <Cxx> [tier]: apply a seeded change to /repo, run the check, undo it straight afterwards.
+# The evidence file of the property is saved and restored (evidence must come from the unchanged tree).
 P=$1; ID=$2; TIER=${3:-quick}
 cd /repo || exit 2
 git diff --quiet || { echo "/repo not clean"; exit 2; }
 git apply "$P" || { echo "patch does not apply"; exit 3; }
+[ -f /verif/evidence/$ID.json ] && cp /verif/evidence/$ID.json /tmp/evidence-$ID.bak
 (cd /verif && bin/check $ID $TIER)
 rc=$?
 git -C /repo checkout -- .
+[ -f /tmp/evidence-$ID.bak ] && mv /tmp/evidence-$ID.bak /verif/evidence/$ID.json
+# the generated facts may have been produced from the patched source: regenerate from the clean tree
+(cd /verif/harness/extract && GOFLAGS=-mod=mod GOPROXY=off GOSUMDB=off GOTOOLCHAIN=local go run . -repo /repo -o /verif/lean/HW/Generated/Facts.lean)
 echo "check rc=$rc"
